@@ -742,8 +742,12 @@ func (c *simCluster) handleProduce(b *simBroker, r *ProduceRequest, wire int) (e
 			resp.AddTopicPartition(simTopic, bt.part, ErrOutOfOrderSequenceNumber)
 			kinds = append(kinds, []interface{}{int(bt.part), "ooo"})
 		}
-		if !c.logAppend && resp.Blocks[simTopic] != nil && resp.Blocks[simTopic][bt.part] != nil {
-			resp.Blocks[simTopic][bt.part].Timestamp = time.Time{}
+		if resp.Blocks[simTopic] != nil && resp.Blocks[simTopic][bt.part] != nil {
+			if c.logAppend && resp.Blocks[simTopic][bt.part].Err == ErrNoError {
+				resp.Blocks[simTopic][bt.part].Timestamp = simT0.Add(time.Duration(n) * time.Second)
+			} else {
+				resp.Blocks[simTopic][bt.part].Timestamp = time.Time{}
+			}
 		}
 	}
 	for p, to := range plan.MoveAfter {
